@@ -161,3 +161,27 @@ Print Assumptions mainLoop_heap_ok.
 Theorem run_heap_ok : forall p fuel, chunk_ok p -> heap_ok_fin (run_proto fuel p).
 Proof. exact HeapSafeFacts.run_heap_ok_lemma. Qed.
 Print Assumptions run_heap_ok.
+
+(* 8. The frame-stack discipline of the main loop, on the machine with coroutine resumption cut off
+      (RunSafe.mainLoop_nc: coroutine.resume and wrap functions stop the run like exhausted fuel;
+      everything else - pcall/xpcall with error recovery, metamethods, tostring, setfenv, tail
+      calls to host functions, coroutine.create/wrap/yield/status/running - is the full model):
+      a main loop re-entered by callR returns with exactly the caller's frames, each as it was, and
+      an error leaves them at the bottom of the stack. This is the hypothesis ml_keeps_caller_pc of
+      wf_exec_op_noob_all, proved of the loop itself (on states where no thread has a resumer).
+      run_proto_nc_full: a run of the cut machine that is not cut off is the run of the full machine. *)
+From GL Require VMX.DiscFacts.
+
+Theorem mainLoop_nc_disc : forall n, ml_disc (mainLoop_nc n).
+Proof. exact DiscFacts.mainLoop_nc_disc_lemma. Qed.
+Print Assumptions mainLoop_nc_disc.
+
+Theorem mainLoop_nc_returns : forall n b s s',
+  par_ok s -> length (vstack s) = S b -> mainLoop_nc n (Some b) s = VRet tt s' ->
+  vstack s' = tl (vstack s) /\ top_pc s' = caller_pc s /\ par_ok s'.
+Proof. exact DiscFacts.mainLoop_nc_returns_lemma. Qed.
+Print Assumptions mainLoop_nc_returns.
+
+Theorem run_proto_nc_full : forall fuel p, run_proto_nc fuel p <> VFinFuel -> run_proto fuel p = run_proto_nc fuel p.
+Proof. exact DiscFacts.run_proto_nc_full_lemma. Qed.
+Print Assumptions run_proto_nc_full.
